@@ -286,6 +286,17 @@ class Calls(DataModels):
                     else (v if z3.is_true(z3.simplify(to_int(i) == to_int(n0))) else el0(i))
                 obj.n = z3.simplify(to_int(n0) + 1)
                 return None
+            if name == 'insert':
+                pos, v, n0, el0 = to_int(args[0]), args[1], obj.n, obj.elem
+                if not I.pure and not I.ctx.provable(z3.And(pos >= 0, pos <= to_int(n0))):
+                    raise Unsupported('list.insert at an index not provably within [0, len]')
+
+                def elem(i, pos=pos, v=v, el0=el0):
+                    ii = to_int(i)
+                    return I.ite(ii < pos, el0(ii), I.ite(ii == pos, v, el0(ii - 1)))
+                obj.elem = elem
+                obj.n = z3.simplify(to_int(n0) + 1)
+                return None
             if name == 'extend':
                 seq = self.as_seq(I, args[0], node)
                 n0, el0 = obj.n, obj.elem
@@ -1142,7 +1153,11 @@ def _b_ceil(M, I, args, kw, node):
     if isinstance(v, FloatDiv):
         I.assumptions.add('math.ceil(a/b) on floats modelled as exact ceiling division (exact below 2^53)')
         a, b = to_int(v.a), to_int(v.b)
-        return CeilDiv(-((-a) / b))
+        if not I.pure and I.ctx.branch(b == 0):
+            raise PyExc('ZeroDivisionError', line_of(node))
+        if not I.pure and not I.ctx.branch(b > 0):
+            raise Unsupported('ceil of a quotient with a negative divisor')
+        return -((-a) / b)          # math.ceil returns an int
     if isinstance(v, (int, float)):
         import math
         return math.ceil(v)
@@ -1175,6 +1190,27 @@ def _b_struct_unpack(M, I, args, kw, node):
     I.assumptions.add('struct.unpack(%r) is the %d-byte %s-endian %s integer reader' % (fmt, n, 'little' if order in '<=' else 'big', 'signed' if signed else 'unsigned'))
     v = rd_int(data.arr, data.off, n, order in '<=', signed)
     return (v,)
+
+
+def _b_bisect_right(M, I, args, kw, node):
+    """bisect.bisect_right(a, x) on a sorted list (documented contract): the insertion point p with
+    all(e <= x for e in a[:p]) and all(e > x for e in a[p:]).  Sortedness of `a` is a call-pre obligation."""
+    a, x = args[0], args[1]
+    sl = M.as_seq(I, a, node)
+    n = to_int(sl.n)
+    i, j = z3.Int('i!bs%d' % I.ctx.counter.setdefault('bs', 0)), z3.Int('j!bs%d' % I.ctx.counter.setdefault('bs', 0))
+    I.ctx.counter['bs'] += 1
+    ei, ej = to_int(sl.elem(i)), to_int(sl.elem(j))
+    if not I.pure:
+        I.ctx.oblige(I.oname('call-pre[bisect_right:sorted]', line_of(node)),
+                     z3.ForAll([i, j], z3.Implies(z3.And(0 <= i, i < j, j < n), ei <= ej)), 'call-pre', line_of(node))
+    p = I.ctx.const('bisect', IntS)
+    xv = to_int(x)
+    I.ctx.assume(z3.And(p >= 0, p <= n))
+    I.ctx.assume(z3.ForAll([i], z3.Implies(z3.And(i >= 0, i < p), ei <= xv), patterns=[ei]))
+    I.ctx.assume(z3.ForAll([i], z3.Implies(z3.And(i >= p, i < n), ei > xv), patterns=[ei]))
+    I.assumptions.add('bisect.bisect_right behaves as documented on a sorted list')
+    return p
 
 
 def _b_from_bytes(M, I, args, kw, node):
@@ -1218,5 +1254,7 @@ _BUILTIN_TABLE = {
 import struct as _struct_mod
 _BUILTIN_TABLE[_struct_mod.unpack] = _b_struct_unpack
 _BUILTIN_TABLE[int.from_bytes] = _b_from_bytes
+import bisect as _bisect_mod
+_BUILTIN_TABLE[_bisect_mod.bisect_right] = _b_bisect_right
 import zlib as _zlib
 _BUILTIN_TABLE[_zlib.decompressobj] = _b_decompressobj
